@@ -82,18 +82,18 @@ pub fn strata_for(prop: &str, tier: Tier) -> Vec<Stratum> {
         "C01" => {
             census_strata(&mut v, &[Family::Data, Family::Cpuid]);
             for c in &data {
-                push_g1(&mut v, *c, tier.pick(400, 20000) as u32, 100);
+                push_g1(&mut v, *c, tier.pick(2000, 40000) as u32, 100);
             }
-            push_g2(&mut v, &data, tier.pick(60_000, 4_000_000) as u32, 200);
+            push_g2(&mut v, &data, tier.pick(200_000, 6_000_000) as u32, 200);
         }
         "C02" => {
             for c in &data {
-                push_g1(&mut v, *c, tier.pick(300, 12000) as u32, 100);
+                push_g1(&mut v, *c, tier.pick(1500, 30000) as u32, 100);
             }
             for c in &data {
                 let m = c.mnemonic();
                 if matches!(m, Mnemonic::Shl | Mnemonic::Shr) {
-                    let reps = tier.pick(2, 24) as u32;
+                    let reps = tier.pick(4, 40) as u32;
                     if has_imm8(*c) {
                         v.push(Stratum::ImmEnum { code: *c, mem: MemMode::Never, reps });
                         v.push(Stratum::ImmEnum { code: *c, mem: MemMode::Always, reps });
@@ -104,7 +104,7 @@ pub fn strata_for(prop: &str, tier: Tier) -> Vec<Stratum> {
                     }
                 }
                 if matches!(m, Mnemonic::Adc | Mnemonic::Add | Mnemonic::And | Mnemonic::Cmp | Mnemonic::Sub | Mnemonic::Xor | Mnemonic::Imul | Mnemonic::Test) && has_imm8(*c) {
-                    let reps = tier.pick(1, 12) as u32;
+                    let reps = tier.pick(2, 20) as u32;
                     v.push(Stratum::ImmEnum { code: *c, mem: MemMode::Never, reps });
                     v.push(Stratum::ImmEnum { code: *c, mem: MemMode::Always, reps });
                 }
@@ -112,39 +112,39 @@ pub fn strata_for(prop: &str, tier: Tier) -> Vec<Stratum> {
             for (b, label) in SHIFT_BY_ONE_IMM8.iter() {
                 v.push(Stratum::Raw { bytes: b.to_vec(), n: tier.pick(60, 2000) as u32, label });
             }
-            push_g2(&mut v, &data, tier.pick(40_000, 3_000_000) as u32, 200);
+            push_g2(&mut v, &data, tier.pick(150_000, 5_000_000) as u32, 200);
         }
         "C03" => {
             census_strata(&mut v, &[Family::Branch, Family::CallRet]);
             for c in &branch {
                 if is_jcc(c.mnemonic()) {
-                    let reps = tier.pick(1, 8);
+                    let reps = tier.pick(3, 24);
                     for _ in 0..reps {
                         v.push(Stratum::JccEnum { code: *c });
                     }
                 } else if matches!(c.mnemonic(), Mnemonic::Jrcxz | Mnemonic::Jecxz) {
-                    for _ in 0..tier.pick(2, 40) {
+                    for _ in 0..tier.pick(6, 80) {
                         v.push(Stratum::JrcxzEnum { code: *c });
                     }
                 }
-                push_g1(&mut v, *c, tier.pick(200, 8000) as u32, 100);
+                push_g1(&mut v, *c, tier.pick(1000, 16000) as u32, 100);
             }
             for c in &callret {
-                push_g1(&mut v, *c, tier.pick(600, 30000) as u32, 100);
+                push_g1(&mut v, *c, tier.pick(6000, 100000) as u32, 100);
             }
             let mut all = branch.clone();
             all.extend(callret.iter());
-            push_g2(&mut v, &all, tier.pick(30_000, 2_000_000) as u32, 200);
+            push_g2(&mut v, &all, tier.pick(100_000, 3_000_000) as u32, 200);
         }
         "C04" => {
             census_strata(&mut v, &[Family::Stack]);
             for c in stack.iter().chain(callret.iter()) {
-                push_g1(&mut v, *c, tier.pick(1500, 60000) as u32, 100);
+                push_g1(&mut v, *c, tier.pick(6000, 120000) as u32, 100);
             }
             let mut all = stack.clone();
             all.extend(callret.iter());
-            push_g2(&mut v, &all, tier.pick(20_000, 1_000_000) as u32, 200);
-            for _ in 0..tier.pick(64, 4000) {
+            push_g2(&mut v, &all, tier.pick(80_000, 2_000_000) as u32, 200);
+            for _ in 0..tier.pick(600, 20000) {
                 v.push(Stratum::Program { n: 25 });
             }
         }
@@ -157,11 +157,24 @@ pub fn strata_for(prop: &str, tier: Tier) -> Vec<Stratum> {
                     }
                 }
             }
-            let probes: Vec<Code> = data
+            // MOV-family probes get the large budget; every other form with a memory operand (ALU, shifts, CMOV,
+            // indirect JMP/CALL, ...) is included with a smaller one: the address of ANY memory operand is judged
+            let mut probes: Vec<Code> = data
                 .iter()
                 .copied()
                 .filter(|c| matches!(c.mnemonic(), Mnemonic::Mov | Mnemonic::Movzx | Mnemonic::Movsxd | Mnemonic::Movups | Mnemonic::Movd | Mnemonic::Lea) && (has_rm_operand(*c) || has_mem_only_operand(*c)))
                 .collect();
+            let others: Vec<Code> = data.iter().chain(branch.iter()).chain(callret.iter()).chain(stack.iter()).copied().filter(|c| !probes.contains(c) && (has_rm_operand(*c) || has_mem_only_operand(*c))).collect();
+            for c in &others {
+                let total = tier.pick(200, 6000) as u32;
+                let mut left = total;
+                while left > 0 {
+                    let n = left.min(100);
+                    v.push(Stratum::G1 { code: *c, n, mem: MemMode::Always });
+                    left -= n;
+                }
+            }
+            probes.extend(others.iter().filter(|c| matches!(c.mnemonic(), Mnemonic::Jmp | Mnemonic::Call)));
             for c in &probes {
                 let total = tier.pick(1500, 40000) as u32;
                 let mut left = total;
@@ -180,7 +193,7 @@ pub fn strata_for(prop: &str, tier: Tier) -> Vec<Stratum> {
             all.extend(callret.iter());
             for c in &all {
                 if has_rm_operand(*c) || has_mem_only_operand(*c) {
-                    let total = tier.pick(220, 8000) as u32;
+                    let total = tier.pick(880, 16000) as u32;
                     let mut left = total;
                     while left > 0 {
                         let n = left.min(110);
@@ -189,12 +202,12 @@ pub fn strata_for(prop: &str, tier: Tier) -> Vec<Stratum> {
                     }
                 }
                 let heavy = matches!(c.mnemonic(), Mnemonic::Div | Mnemonic::Idiv | Mnemonic::Xorps | Mnemonic::Movups);
-                push_g1(&mut v, *c, if heavy { tier.pick(3000, 120_000) } else { tier.pick(150, 6000) } as u32, 100);
+                push_g1(&mut v, *c, if heavy { tier.pick(12000, 300_000) } else { tier.pick(600, 12000) } as u32, 100);
             }
             for (b, label) in SHIFT_BY_ONE_IMM8.iter() {
                 v.push(Stratum::Raw { bytes: b.to_vec(), n: tier.pick(40, 1000) as u32, label });
             }
-            push_g2(&mut v, &all, tier.pick(60_000, 4_000_000) as u32, 200);
+            push_g2(&mut v, &all, tier.pick(200_000, 6_000_000) as u32, 200);
         }
         _ => {}
     }
